@@ -224,6 +224,67 @@ def check_counter_validity_gap(body):
     return None
 
 
+def check_counter_validity_compiled(body, header):
+    """the same judgement with the function *compiled*: the body of `Transformation::checkCounterValidity` is put, verbatim,
+    into a stub class that has the five members it uses (the error enum is copied from Transformation.h), built with g++
+    and run over the same small values.  Independent of how the body is written (loops, pointers, helper locals).
+    Returns None (no gap), the first mishandled assignment, or raises if it cannot be built."""
+    import json as _json
+    import subprocess
+    import tempfile
+    m = re.search(r'typedef\s+enum\s*\{([^}]*)\}\s*(\w+)\s*;', header)
+    if not m or 'TransMaxInstanceError' not in m.group(1):
+        raise ValueError('error enum not found in Transformation.h')
+    enum_body, enum_name = m.group(1), m.group(2)
+    names = [x.strip().split('=')[0].strip() for x in enum_body.split(',') if x.strip()]
+    prog = '''
+#include <iostream>
+#include <string>
+#include <cstdio>
+using namespace std;
+typedef enum {%s} %s;
+static const char *ErrNames[] = {%s};
+struct Transformation {
+  int TransformationCounter; int ValidInstanceNum; int ToCounter; bool WarnOnCounterOutOfBounds; %s TransError;
+  bool checkCounterValidity();
+};
+bool Transformation::checkCounterValidity() %s
+int main() {
+  for (int n = 0; n < 3; n++) for (int c = 1; c < n + 3; c++) for (int w = 0; w < 2; w++) {
+    int tos[5] = {-1, c, c + 1, n + 1, n + 2};
+    for (int k = 0; k < 5; k++) {
+      Transformation T; T.TransformationCounter = c; T.ValidInstanceNum = n; T.ToCounter = tos[k]; T.WarnOnCounterOutOfBounds = (w != 0); T.TransError = TransSuccess;
+      bool ok = T.checkCounterValidity();
+      printf("%%d %%d %%d %%d %%d %%s %%d %%d\\n", n, c, tos[k], w, ok ? 1 : 0, ErrNames[(int)T.TransError], T.TransformationCounter, T.ToCounter);
+    }
+  }
+  return 0;
+}
+''' % (enum_body, enum_name, ', '.join('"%s"' % x for x in names), enum_name, body)
+    with tempfile.TemporaryDirectory(prefix='ccv-') as d:
+        src = os.path.join(d, 'ccv.cpp')
+        open(src, 'w').write(prog)
+        r = subprocess.run(['g++', '-std=c++11', '-O0', '-o', os.path.join(d, 'ccv'), src], capture_output=True, text=True, timeout=120)
+        if r.returncode != 0:
+            raise ValueError('does not compile in the stub: ' + r.stderr[-300:])
+        r = subprocess.run([os.path.join(d, 'ccv')], capture_output=True, text=True, timeout=60)
+        if r.returncode != 0:
+            raise ValueError('stub program failed')
+    for line in r.stdout.split('\n'):
+        if not line.strip() or line.startswith('Warning'):
+            continue
+        n, c, to, w, ok, err, c2, t2 = line.split()
+        n, c, to, w, ok, c2, t2 = int(n), int(c), int(to), int(w), int(ok), int(c2), int(t2)
+        too_big = c > n or to > n
+        if not w:
+            good = (ok == 0 and err == 'TransMaxInstanceError') if too_big else (ok == 1 and err == 'TransSuccess')
+        else:
+            good = ok == 1 and c2 <= n and t2 <= n
+        if not good:
+            return {'TransformationCounter': c, 'ValidInstanceNum': n, 'ToCounter': to, 'WarnOnCounterOutOfBounds': bool(w), 'TransError': 'TransSuccess'}
+    return None
+
+
 class Extractor:
     def __init__(self, repo):
         self.D = os.path.join(str(repo), 'clang_delta')
@@ -301,7 +362,14 @@ class Extractor:
         if not bodies:
             return None
         kinds = []
+        locals_ = {}       # local booleans / integers defined by one expression: inlined where they are used later
         for st in split_stmts(bodies[0]):
+            md = re.match(r'^(?:const\s+)?(?:bool|int|unsigned)\s+(?:const\s+)?(\w+)\s*=\s*(.+?);?$', st, re.S)
+            if md and 'new ' not in md.group(2):
+                locals_[md.group(1)] = '(' + md.group(2).strip() + ')'
+            for nm_, ex_ in locals_.items():
+                if not (md and md.group(1) == nm_):
+                    st = re.sub(r'\b' + re.escape(nm_) + r'\b', lambda _m, e=ex_: e, st)
             if re.match(r'if\s*\(\s*QueryInstanceOnly\s*\)', st) and 'return' in st:
                 kinds.append('q')
             elif 'checkCounterValidity' in st and 'return' in st:
@@ -330,12 +398,21 @@ class Extractor:
         out_msg = re.search(r'outputNumTransformationInstances\(\)\s*\{[^}]*llvm::outs\(\)\s*<<\s*"([^"]*)"', tm)
         err_msg = re.search(r'outputNumTransformationInstancesToStderr\(\)\s*\{[^}]*cerr\s*<<\s*"([^"]*)"', tm)
         ccv_ok, ccv_gap = False, 'function not found'
+        ccv_how = 'none'
         for b in self.allfuncs.get(('Transformation', 'checkCounterValidity'), []):
+            # first choice: the function compiled as it is (g++) inside a stub class; second: the small C reader
             try:
-                ccv_gap = check_counter_validity_gap(b)
+                ccv_gap = check_counter_validity_compiled(b, self.src.get('Transformation.h', ''))
                 ccv_ok = ccv_gap is None
-            except Exception as e:       # a body the reader cannot follow is not silently accepted
-                ccv_ok, ccv_gap = False, f'unreadable: {e}'
+                ccv_how = 'compiled'
+            except Exception as e1:      # noqa: BLE001
+                try:
+                    ccv_gap = check_counter_validity_gap(b)
+                    ccv_ok = ccv_gap is None
+                    ccv_how = 'transpiled'
+                except Exception as e:       # a body neither can follow is not silently accepted — but it is not a failing input either
+                    ccv_ok, ccv_gap = False, f'unreadable: {e}; not compilable in the stub: {e1}'
+                    ccv_how = 'unreadable'
         dt = (self.allfuncs.get(('TransformationManager', 'doTransformation')) or [''])[0]
         iq = dt.find('if (QueryInstanceOnly)')
         io = dt.find('getOutStream()')
@@ -346,7 +423,7 @@ class Extractor:
         for b in self.allfuncs.get(('TransformationManager', 'verify'), []):
             pre += b
         query_before_output = query_before_output and not opener.search(pre)
-        return {'check_counter_validity_ok': ccv_ok, 'check_counter_validity_gap': ccv_gap, 'query_returns_before_output': query_before_output,
+        return {'check_counter_validity_ok': ccv_ok, 'check_counter_validity_gap': ccv_gap, 'check_counter_validity_how': ccv_how, 'query_returns_before_output': query_before_output,
                 'default_error': default_error, 'invalid_counter': invalid_counter, 'die_uses_errorcode': die_uses_errorcode,
                 'main_returns_zero': main_returns_zero, 'stdout_msg': out_msg.group(1) if out_msg else None,
                 'stderr_msg': err_msg.group(1) if err_msg else None,
